@@ -79,6 +79,43 @@ pub fn join<T: ToString>(v: &[T]) -> String {
     v.iter().map(|x| x.to_string()).collect::<Vec<_>>().join(" ")
 }
 
+/// numbers mined from the functions of the crate whose source differs from the baseline the model was
+/// written against (`tools/srcmap.py --hints`, passed in `VERIF_HINTS`): literals and named constants of the
+/// changed code.  Empty on the unchanged tree.  The generators aim lengths, counts, symbol values, alphabet
+/// sizes and query arguments at them (and at sums / products / multiples of them), so that a special case
+/// keyed on a magic number or on a relation between two periods is actually exercised.
+pub fn hints() -> &'static Vec<usize> {
+    static H: std::sync::OnceLock<Vec<usize>> = std::sync::OnceLock::new();
+    H.get_or_init(|| {
+        std::env::var("VERIF_HINTS").unwrap_or_default().split(',').filter_map(|x| x.trim().parse::<usize>().ok()).filter(|&x| x >= 2 && x <= 3_000_000).collect()
+    })
+}
+
+/// a number built from the hints: h, h±1, k·h (+-1), h1 + h2 (+-1), h1·h2 (+-1), |h1 - h2|
+pub fn hint_number(r: &mut Rng, max: usize) -> Option<usize> {
+    let hs = hints();
+    if hs.is_empty() {
+        return None;
+    }
+    for _ in 0..8 {
+        let h1 = *r.pick(hs);
+        let h2 = *r.pick(hs);
+        let base = match r.below(8) {
+            0 | 1 => h1,
+            2 | 3 => h1 * r.range(1, 6) as usize,
+            4 => h1 + h2,
+            5 => h1.saturating_mul(h2),
+            6 => h1.max(h2) - h1.min(h2),
+            _ => h1 * r.range(1, 40) as usize + h2,
+        };
+        let n = (base + [0usize, 0, 1, 0, 2][r.below(5) as usize]).saturating_sub([0usize, 1, 0, 0, 0][r.below(5) as usize]);
+        if n >= 1 && n <= max {
+            return Some(n);
+        }
+    }
+    None
+}
+
 /// a length near a structural boundary
 pub fn boundary_len(r: &mut Rng, max: usize) -> usize {
     let bases: [usize; 14] = [64, 128, 256, 512, 1024, 2048, 4096, 8192, 16384, 32768, 65536, 131072, 2048 * 3, 4096 * 3];
@@ -97,6 +134,11 @@ pub fn boundary_len(r: &mut Rng, max: usize) -> usize {
 }
 
 pub fn some_len(r: &mut Rng, max: usize) -> usize {
+    if !hints().is_empty() && r.chance(1, 2) {
+        if let Some(n) = hint_number(r, max.max(120_000)) {
+            return n;
+        }
+    }
     match r.below(12) {
         10 | 11 => {
             // exact multiples of the structural periods (and +-1)
@@ -116,6 +158,33 @@ pub fn some_len(r: &mut Rng, max: usize) -> usize {
 pub fn shaped_seq(r: &mut Rng, n: usize, alpha: &[u128], shape: u64) -> Vec<u128> {
     let a = alpha.len();
     let mut v = Vec::with_capacity(n);
+    // diff-directed: one symbol occurs *exactly* a hint-derived number of times (spread, at the start, or at
+    // the end), the others fill the rest
+    if !hints().is_empty() && n >= 2 && r.chance(1, 3) {
+        if let Some(t) = hint_number(r, n) {
+            let c = alpha[r.below(a as u64) as usize];
+            let others: Vec<u128> = alpha.iter().copied().filter(|&x| x != c).collect();
+            if !others.is_empty() || t == n {
+                let place = r.below(4);
+                let mut left = t;
+                for i in 0..n {
+                    let rest = n - i;
+                    let take = match place {
+                        0 => i < t,
+                        1 => rest <= left,
+                        _ => left > 0 && (rest <= left || r.below(rest as u64) < left as u64),
+                    };
+                    if take && left > 0 {
+                        v.push(c);
+                        left -= 1;
+                    } else {
+                        v.push(others[r.below(others.len() as u64) as usize]);
+                    }
+                }
+                return v;
+            }
+        }
+    }
     match shape {
         0 => {
             for _ in 0..n {
@@ -251,10 +320,22 @@ pub fn alphabet(r: &mut Rng, bits: u32, max_card: usize) -> Vec<u128> {
         3 if bits > 64 => (1u128 << r.range(64, 127)) + r.below(1000) as u128,
         _ => (card as u128 - 1) + r.below(3 * card as u64) as u128,
     };
+    // diff-directed: the largest symbol (or the number of symbols) is a hint-derived number
+    let mut card = card;
+    if !hints().is_empty() && r.chance(1, 3) {
+        if let Some(h) = hint_number(r, 2_000_000) {
+            if r.chance(1, 2) && h <= max_card {
+                card = h.max(1);
+            } else {
+                top = (h as u128).min(tmax);
+            }
+        }
+    }
     if top < card as u128 - 1 {
         top = card as u128 - 1;
     }
     top = top.min(tmax);
+    let card = card.min(top as usize + 1);
     // choose `card` distinct values in 0..=top, always containing `top`
     let mut vals = vec![top];
     let mut guard = 0;
@@ -340,6 +421,16 @@ pub fn tree_queries(r: &mut Rng, c: &mut Case, v: &[u128], bits: u32, budget: us
     }
     poss.extend(huge_args(n));
     poss.push(1usize << 43);
+    for &h in hints().iter() {
+        for p in [h.saturating_sub(1), h, h + 1] {
+            if p <= n + 1 {
+                poss.push(p);
+            }
+        }
+        if let Some(p) = hint_number(r, n + 1) {
+            poss.push(p);
+        }
+    }
     poss.sort();
     poss.dedup();
 
@@ -398,6 +489,9 @@ pub fn tree_queries(r: &mut Rng, c: &mut Case, v: &[u128], bits: u32, budget: us
                         }
                     }
                     ks.extend(gap_ks(v, s));
+                    for &h in hints().iter() {
+                        ks.extend([h.saturating_sub(1), h, h + 1]);
+                    }
                     if cnt > 0 {
                         for _ in 0..3 {
                             ks.push(r.below(cnt as u64) as usize);
@@ -550,6 +644,58 @@ pub fn card_class(n: usize) -> &'static str {
 /// bit vector as (len, positions of ones) with a given density class / run structure
 pub fn shaped_bits(r: &mut Rng, n: usize, shape: u64) -> Vec<usize> {
     let mut ps = vec![];
+    // diff-directed: exactly a hint-derived number of ones (or of zeros), or ones at a hint-derived distance
+    if !hints().is_empty() && n >= 2 && r.chance(1, 3) {
+        if let Some(t) = hint_number(r, n) {
+            match r.below(4) {
+                0 => {
+                    // t ones, spread
+                    let mut left = t;
+                    for i in 0..n {
+                        let rest = n - i;
+                        if left > 0 && (rest <= left || r.below(rest as u64) < left as u64) {
+                            ps.push(i);
+                            left -= 1;
+                        }
+                    }
+                }
+                1 => {
+                    // t zeros, spread
+                    let mut left = t;
+                    for i in 0..n {
+                        let rest = n - i;
+                        if left > 0 && (rest <= left || r.below(rest as u64) < left as u64) {
+                            left -= 1;
+                        } else {
+                            ps.push(i);
+                        }
+                    }
+                }
+                2 => {
+                    // ones exactly t apart (with a random phase), a few doubled
+                    let mut p = r.below(t as u64) as usize;
+                    while p < n {
+                        ps.push(p);
+                        if r.chance(1, 8) && p + 1 < n {
+                            ps.push(p + 1);
+                        }
+                        p += t.max(2);
+                    }
+                }
+                _ => {
+                    // a dense prefix of t ones, then sparse
+                    ps.extend(0..t.min(n));
+                    let mut p = t + r.range(1, 70000) as usize;
+                    while p < n {
+                        ps.push(p);
+                        p += r.range(1, 70000) as usize;
+                    }
+                }
+            }
+            ps.dedup();
+            return ps;
+        }
+    }
     match shape {
         0 => {} // all zeros
         1 => ps.extend(0..n),
@@ -652,6 +798,16 @@ pub fn bits_queries(r: &mut Rng, c: &mut Case, slot: usize, n: usize, ones: &[us
             poss.push(r.below(n as u64 + 1) as usize);
         }
     }
+    for &h in hints().iter() {
+        for p in [h.saturating_sub(1), h, h + 1] {
+            if p <= n + 1 {
+                poss.push(p);
+            }
+        }
+        if let Some(p) = hint_number(r, n + 1) {
+            poss.push(p);
+        }
+    }
     poss.sort();
     poss.dedup();
     for &op in ops {
@@ -674,7 +830,8 @@ pub fn bits_queries(r: &mut Rng, c: &mut Case, slot: usize, n: usize, ones: &[us
             "select1" | "select0" | "select1_unchecked" | "select0_unchecked" => {
                 let cnt = if op.starts_with("select1") { n1 } else { n0 };
                 let mut ks: Vec<usize> = vec![0, 1, cnt.saturating_sub(1), cnt, cnt + 1, usize::MAX, cnt / 2, cnt / 3, 1 << 63, (1 << 63) + cnt / 2, usize::MAX - cnt, (1 << 32) + 1];
-                for m in [1024usize, 2048, 8192, 16384, 32, 64, 1023, 1025] {
+                for m in [1024usize, 2048, 8192, 16384, 32, 64, 1023, 1025].iter().chain(hints().iter()) {
+                    let m = *m;
                     if cnt > m {
                         ks.extend([m - 1, m, m + 1]);
                     }
